@@ -39,19 +39,6 @@ Proof.
   rewrite andb_true_iff; intros [Hx Hr]. rewrite Hx, IH by assumption. reflexivity.
 Qed.
 
-Lemma good_bindable n : good_name n = true -> bindable n = true.
-Proof. unfold good_name. rewrite andb_true_iff. tauto. Qed.
-
-Lemma good_not_f n : good_name n = true -> n <> "f".
-Proof.
-  unfold good_name. rewrite andb_true_iff, negb_true_iff, String.eqb_neq. tauto.
-Qed.
-
-Lemma forall_good_bindable l : forallb good_name l = true -> forallb bindable l = true.
-Proof.
-  rewrite !forallb_forall. intros H x Hx. apply good_bindable, H, Hx.
-Qed.
-
 Lemma bindable_nonempty l : forallb bindable l = true -> forallb (fun n => negb (n =s "")) l = true.
 Proof.
   rewrite !forallb_forall. intros H x Hx. specialize (H x Hx). unfold bindable in H.
@@ -132,15 +119,121 @@ Lemma prim_results_length res n acc : length (prim_results res n acc) = n.
 Proof. unfold prim_results. rewrite map_length, seq_length. reflexivity. Qed.
 
 (* ---------- the guard, taken apart ---------- *)
-Lemma guardb_spec ps rs :
-  guardb ps rs = true ->
-  forallb good_name ps = true /\ names_form rs = true /\ NoDup (ps ++ filter bindable rs) /\ ~ In "f" rs.
+Lemma guardf_spec fn ps rs :
+  guardf fn ps rs = true ->
+  bindable fn = true /\ ~ In fn ps /\ ~ In fn rs /\ forallb bindable ps = true
+  /\ names_form rs = true /\ NoDup (ps ++ filter bindable rs).
 Proof.
-  unfold guardb. rewrite !andb_true_iff, negb_true_iff, memb_false, nodupb_NoDup. tauto.
+  unfold guardf. rewrite !andb_true_iff, !negb_true_iff, !memb_false, nodupb_NoDup. tauto.
 Qed.
 
 Lemma not_in_filter {A} (p : A -> bool) x l : ~ In x l -> ~ In x (filter p l).
 Proof. intros H Hi. apply filter_In in Hi. tauto. Qed.
+
+Lemma NoDup_app_intro {A} (a b : list A) :
+  NoDup a -> NoDup b -> (forall x, In x a -> ~ In x b) -> NoDup (a ++ b).
+Proof.
+  induction a as [|x a IH]; cbn; intros Ha Hb Hd; [exact Hb|].
+  inversion Ha as [|? ? Hx Ha']; subst. constructor.
+  - intros Hi. apply in_app_or in Hi as [Hi|Hi]; [exact (Hx Hi)|]. apply (Hd x); [left; reflexivity|exact Hi].
+  - apply IH; [assumption|assumption|]. intros y Hy. apply Hd. right. exact Hy.
+Qed.
+
+(* ---------- strings: derive.UnusedName ---------- *)
+Fixpoint us (k : nat) : string := match k with O => "" | S k' => String "_" (us k') end.
+
+Lemma append_assoc a b c :
+  String.append (String.append a b) c = String.append a (String.append b c).
+Proof. induction a as [|x a IH]; cbn; [reflexivity|]. rewrite IH. reflexivity. Qed.
+
+Lemma append_nil_r a : String.append a "" = a.
+Proof. induction a as [|x a IH]; cbn; [reflexivity|]. rewrite IH. reflexivity. Qed.
+
+Lemma length_append a b : String.length (String.append a b) = String.length a + String.length b.
+Proof. induction a as [|x a IH]; cbn; [reflexivity|]. rewrite IH. reflexivity. Qed.
+
+Lemma us_length k : String.length (us k) = k.
+Proof. induction k as [|k IH]; cbn; [reflexivity|]. rewrite IH. reflexivity. Qed.
+
+(* the loop only ever appends underscores *)
+Lemma unused_from_shape fuel n taken : exists k, unused_from fuel n taken = String.append n (us k).
+Proof.
+  revert n; induction fuel as [|fuel IH]; intros n; cbn [unused_from].
+  - exists 0. cbn. rewrite append_nil_r. reflexivity.
+  - destruct (memb n taken).
+    + destruct (IH (String.append n "_")) as [k E]. exists (S k). rewrite E, append_assoc. reflexivity.
+    + exists 0. cbn. rewrite append_nil_r. reflexivity.
+Qed.
+
+(* if the loop stops on a taken name when the fuel is gone, every candidate it tried is taken *)
+Lemma unused_from_in fuel n taken :
+  In (unused_from fuel n taken) taken ->
+  forall i, i <= fuel -> In (String.append n (us i)) taken.
+Proof.
+  revert n; induction fuel as [|fuel IH]; intros n H i Hi; cbn [unused_from] in H.
+  - replace i with 0 by lia. cbn. rewrite append_nil_r. exact H.
+  - destruct (memb n taken) eqn:E.
+    + destruct i as [|i].
+      * cbn. rewrite append_nil_r. apply memb_In. exact E.
+      * specialize (IH _ H i ltac:(lia)). rewrite append_assoc in IH. exact IH.
+    + exfalso. apply memb_false in E. exact (E H).
+Qed.
+
+(* ... and length taken + 1 distinct candidates do not fit into taken: the fuel never runs out *)
+Theorem unused_name_fresh n taken : ~ In (unused_name n taken) taken.
+Proof.
+  unfold unused_name. intros H. pose proof (unused_from_in _ _ _ H) as Hall. unfold name in *.
+  set (cands := map (fun i => String.append n (us i)) (seq 0 (S (length taken)))).
+  assert (Hnd : NoDup cands).
+  { apply FinFun.Injective_map_NoDup; [|apply seq_NoDup].
+    intros i j E. apply (f_equal String.length) in E. rewrite !length_append, !us_length in E. lia. }
+  assert (Hincl : incl cands taken).
+  { intros x Hx. apply in_map_iff in Hx as (i & <- & Hi). apply in_seq in Hi. apply Hall. lia. }
+  pose proof (NoDup_incl_length Hnd Hincl) as Hlen.
+  unfold cands in Hlen. rewrite map_length, seq_length in Hlen. lia.
+Qed.
+
+Lemma bindable_cons c s : c <> "_"%char -> bindable (String c s) = true.
+Proof.
+  intros Hc. unfold bindable.
+  destruct (String.eqb_spec (String c s) "") as [E|_]; [discriminate|].
+  destruct (String.eqb_spec (String c s) "_") as [E|_]; [|reflexivity].
+  injection E as E _. contradiction.
+Qed.
+
+Lemma prefix_append p s : prefix p (String.append p s) = true.
+Proof.
+  induction p as [|a p IH]; cbn; [destruct s; reflexivity|].
+  destruct (ascii_dec a a); [exact IH|congruence].
+Qed.
+
+(* a name made up from a prefix: carries the prefix, can be referred to, is not taken *)
+Lemma made_up c pre' i l :
+  c <> "_"%char ->
+  let x := unused_name (String.append (String c pre') (itoa i)) l in
+  prefix (String c pre') x = true /\ bindable x = true /\ ~ In x l.
+Proof.
+  intros Hc x. split; [|split]; [| |apply unused_name_fresh].
+  - subst x. unfold unused_name.
+    destruct (unused_from_shape (length l) (String.append (String c pre') (itoa i)) l) as [k E].
+    rewrite E, append_assoc. apply prefix_append.
+  - subst x. unfold unused_name.
+    destruct (unused_from_shape (length l) (String.append (String c pre') (itoa i)) l) as [k E].
+    rewrite E. cbn [String.append]. apply bindable_cons, Hc.
+Qed.
+
+(* the wrapper's own parameter in the current tree *)
+Lemma fname_fresh ps rs :
+  let fn := fname hygienic ps rs in bindable fn = true /\ ~ In fn ps /\ ~ In fn rs.
+Proof.
+  cbn [fname hygienic v_hygiene]. cbv zeta.
+  pose proof (unused_name_fresh "f" (ps ++ rs)) as Hn.
+  split; [|split].
+  - unfold unused_name. destruct (unused_from_shape (length (ps ++ rs)) "f" (ps ++ rs)) as [k E].
+    rewrite E. cbn [String.append]. apply bindable_cons. discriminate.
+  - intros Hi. apply Hn, in_or_app. left. exact Hi.
+  - intros Hi. apply Hn, in_or_app. right. exact Hi.
+Qed.
 
 (* ---------- evaluation steps shared by the four plugins ---------- *)
 Section Steps.
@@ -215,39 +308,40 @@ Proof. reflexivity. Qed.
 Local Arguments eval : simpl never.
 Local Arguments apply : simpl never.
 
-(* f(names) where f is the flat original function *)
-Lemma call_f_flat k en xs args n nres log :
-  lookup_var en "f" = Some (VPrim [n] nres []) ->
+(* fn(names) where fn is bound to the flat original function *)
+Lemma call_f_flat k en fn xs args n nres log :
+  lookup_var en fn = Some (VPrim [n] nres []) ->
   lookup_all en xs = Some args -> length args = n ->
-  eval res (3 + k) en (Call (Var "f") xs) log
+  eval res (3 + k) en (Call (Var fn) xs) log
   = Ok (prim_results res nres [args], log ++ [(0, args)]).
 Proof.
   intros Hf Hx Hl. cbn [Nat.add]. rewrite eval_S, eval_S, Hf, Hx, apply_S.
   rewrite Hl, Nat.eqb_refl. reflexivity.
 Qed.
 
-(* f(xs)(ys) where f is the curried original function *)
-Lemma call_f_curried k en xs ys a b n m nres log :
-  lookup_var en "f" = Some (VPrim [n; m] nres []) ->
+(* fn(xs)(ys) where fn is bound to the curried original function *)
+Lemma call_f_curried k en fn xs ys a b n m nres log :
+  lookup_var en fn = Some (VPrim [n; m] nres []) ->
   lookup_all en xs = Some a -> lookup_all en ys = Some b -> length a = n -> length b = m ->
-  eval res (4 + k) en (Call (Call (Var "f") xs) ys) log
+  eval res (4 + k) en (Call (Call (Var fn) xs) ys) log
   = Ok (prim_results res nres [a; b], (log ++ [(0, a)]) ++ [(1, b)]).
 Proof.
   intros Hf Hx Hy Hn Hm. cbn [Nat.add]. rewrite eval_S, eval_S, eval_S, Hf, Hx, apply_S.
   rewrite Hn, Nat.eqb_refl, Hy, apply_S, Hm, Nat.eqb_refl. reflexivity.
 Qed.
 
-(* applying a closure whose body is the call statement the fixed plugins print *)
-Lemma apply_clo_stmt k cenv ps (results : list (name * ty)) fn xs vs log out log' :
+(* applying a closure whose body is the call statement the plugins print since the no-result fix *)
+Lemma apply_clo_stmt v k cenv ps (results : list (name * ty)) fn xs vs log out log' :
+  v_void_stmt v = true ->
   length ps = length vs ->
   eval res k (bind ps vs (bind (names results) (zeros (names results)) cenv)) (Call fn xs) log
     = Ok (out, log') ->
   length out = length results ->
-  apply res (S k) (VClo cenv ps (names results) (call_stmt fixed results (Call fn xs))) vs log
+  apply res (S k) (VClo cenv ps (names results) (call_stmt v results (Call fn xs))) vs log
     = Ok (out, log').
 Proof.
-  intros Hl He Ho. rewrite apply_S, Hl, Nat.eqb_refl.
-  unfold call_stmt. cbn [v_void_stmt fixed andb].
+  intros Hv Hl He Ho. rewrite apply_S, Hl, Nat.eqb_refl.
+  unfold call_stmt. rewrite Hv. cbn [andb].
   assert (Hn : length (names results) = length results) by (unfold names; apply map_length).
   destruct (length results =? 0) eqn:E; cbv zeta.
   - rewrite He, Hn, E. apply Nat.eqb_eq in E. rewrite E in Ho. destruct out; [reflexivity|discriminate].
@@ -276,179 +370,175 @@ Qed.
 Lemma in_names_results n rs : bindable n = true -> In n rs -> In n (filter bindable rs).
 Proof. intros Hb Hi. apply filter_In. split; assumption. Qed.
 
+Lemma eqb_false_of_neq a b : a <> b -> (a =s b) = false.
+Proof. intros H. apply String.eqb_neq. exact H. Qed.
+
 (* ---------- curry ---------- *)
-Lemma curry_core k (s : sig) p1 ps a1 rest t :
+Lemma curry_core v fn k (s : sig) p1 ps a1 rest t :
+  v_void_stmt v = true ->
   s_params s = p1 :: ps ->
-  guardb (names (s_params s)) (names (s_results s)) = true ->
+  guardf fn (names (s_params s)) (names (s_results s)) = true ->
   length rest = length ps ->
-  curry_term fixed s = Some t ->
+  curry_term_f fn v s = Some t ->
   run_term res (FUEL + k) t [[prim_flat s]; [a1]; rest]
   = ROk (prim_results res (length (s_results s)) [a1 :: rest]) [(0, a1 :: rest)].
 Proof.
-  intros Hp Hg Hl Ht.
-  unfold curry_term, curry_sig in Ht. rewrite Hp in Ht. injection Ht as <-. cbn [fst s_params s_results].
-  apply guardb_spec in Hg as (Hgood & Hform & Hnd & Hf). rewrite Hp in Hgood, Hnd. cbn [names map] in Hgood, Hnd.
-  destruct p1 as [n1 t1]. cbn [fst] in *.
-  cbn [forallb] in Hgood. apply andb_true_iff in Hgood as [Hg1 Hgps].
-  change (fst (n1, t1) :: map fst ps) with (n1 :: names ps) in Hnd.
+  intros Hv Hp Hg Hl Ht.
+  unfold curry_term_f, curry_sig in Ht. rewrite Hp in Ht. injection Ht as <-. cbn [fst s_params s_results].
+  apply guardf_spec in Hg as (Hbf & Hfp & Hf & Hbind & Hform & Hnd).
+  rewrite Hp in Hfp, Hbind, Hnd. destruct p1 as [n1 t1]. cbn [names map fst] in Hfp, Hbind, Hnd |- *.
+  change (map fst ps) with (names ps) in *. change (map fst (s_results s)) with (names (s_results s)) in *.
+  cbn [forallb] in Hbind. apply andb_true_iff in Hbind as [Hb1 Hbps].
   cbn [app] in Hnd. apply NoDup_cons_iff in Hnd as [Hn1 Hnd].
-  assert (Hb1 : bindable n1 = true) by (apply good_bindable; assumption).
   assert (Hn1ps : ~ In n1 (names ps)) by (intros Hi; apply Hn1, in_or_app; left; exact Hi).
   assert (Hn1rs : ~ In n1 (names (s_results s)))
     by (intros Hi; apply Hn1, in_or_app; right; apply in_names_results; assumption).
-  assert (Hfps : ~ In "f" (names ps)).
-  { intros Hi. rewrite forallb_forall in Hgps. apply (good_not_f "f"); [apply Hgps, Hi|reflexivity]. }
+  assert (Hfps : ~ In fn (names ps)) by (intros Hi; apply Hfp; right; exact Hi).
+  assert (Hn1f : (n1 =s fn) = false) by (apply eqb_false_of_neq; intros ->; apply Hfp; left; reflexivity).
   assert (Hlen : length (names ps) = length rest) by (unfold names; rewrite map_length; symmetry; exact Hl).
-  assert (Hok : lam_ok (names ps) (names (s_results s)) = true).
-  { apply lam_ok_good; [apply forall_good_bindable; assumption|assumption|assumption]. }
+  assert (Hok : lam_ok (names ps) (names (s_results s)) = true) by (apply lam_ok_good; assumption).
   unfold run_term. change (FUEL + k) with (S (11 + k)) at 1.
-  rewrite decl_value_lam by reflexivity.
+  rewrite decl_value_lam by apply lam_ok_single.
   cbn [apply_chain].
   change (FUEL + k) with (2 + (10 + k)).
   rewrite apply_clo_lam by (try reflexivity; apply lam_ok_single).
   rewrite apply_clo_lam by (try reflexivity; exact Hok).
-  cbn [bind]. rewrite Hb1.
+  cbn [bind]. rewrite Hb1, Hbf.
   change (2 + (10 + k)) with (S (3 + (8 + k))).
-  erewrite apply_clo_stmt; [reflexivity|exact Hlen| |].
-  - change (bindable "f") with true. cbv iota. unfold prim_flat.
+  erewrite apply_clo_stmt; [reflexivity|exact Hv|exact Hlen| |].
+  - unfold prim_flat.
     eapply call_f_flat.
     + rewrite lookup_var_bind_skip by exact Hfps.
       rewrite lookup_var_bind_skip by exact Hf.
-      unfold lookup_var. cbn. apply good_not_f in Hg1.
-      apply String.eqb_neq in Hg1. rewrite Hg1. reflexivity.
+      unfold lookup_var. rewrite Hbf. cbn [lookup]. rewrite Hn1f, String.eqb_refl. reflexivity.
     + cbn [lookup_all].
       rewrite lookup_var_bind_skip by exact Hn1ps.
       rewrite lookup_var_bind_skip by exact Hn1rs.
       unfold lookup_var at 1. rewrite Hb1. cbn [lookup]. rewrite String.eqb_refl.
-      rewrite lookup_all_bind; [reflexivity|apply forall_good_bindable; assumption| |exact Hlen].
+      rewrite lookup_all_bind; [reflexivity|assumption| |exact Hlen].
       apply NoDup_app_l in Hnd. exact Hnd.
     + cbn. rewrite Hp. cbn. f_equal. exact Hl.
   - apply prim_results_length.
 Qed.
 
 (* ---------- flip ---------- *)
-Lemma flip_core k (s : sig) p1 p2 ps x1 x2 xs t :
+Lemma flip_core v fn k (s : sig) p1 p2 ps x1 x2 xs t :
+  v_void_stmt v = true ->
   s_params s = p1 :: p2 :: ps ->
-  guardb (names (s_params s)) (names (s_results s)) = true ->
+  guardf fn (names (s_params s)) (names (s_results s)) = true ->
   length xs = length ps ->
-  flip_term fixed s = Some t ->
+  flip_term_f fn v s = Some t ->
   run_term res (FUEL + k) t [[prim_flat s]; x1 :: x2 :: xs]
   = ROk (prim_results res (length (s_results s)) [x2 :: x1 :: xs]) [(0, x2 :: x1 :: xs)].
 Proof.
-  intros Hp Hg Hl Ht.
-  unfold flip_term, flip_sig in Ht. rewrite Hp in Ht. injection Ht as <-. cbn [s_params s_results].
-  apply guardb_spec in Hg as (Hgood & Hform & Hnd & Hf). rewrite Hp in Hgood, Hnd.
-  destruct p1 as [n1 t1], p2 as [n2 t2]. cbn [names map fst] in *.
-  change (map fst ps) with (names ps) in *.
-  cbn [forallb] in Hgood. apply andb_true_iff in Hgood as [Hg1 Hgood].
-  apply andb_true_iff in Hgood as [Hg2 Hgps].
-  assert (Hb1 : bindable n1 = true) by (apply good_bindable; assumption).
-  assert (Hb2 : bindable n2 = true) by (apply good_bindable; assumption).
+  intros Hv Hp Hg Hl Ht.
+  unfold flip_term_f, flip_sig in Ht. rewrite Hp in Ht. injection Ht as <-. cbn [s_params s_results].
+  apply guardf_spec in Hg as (Hbf & Hfp & Hf & Hbind & Hform & Hnd).
+  rewrite Hp in Hfp, Hbind, Hnd. destruct p1 as [n1 t1], p2 as [n2 t2].
+  cbn [names map fst] in Hfp, Hbind, Hnd |- *.
+  change (map fst ps) with (names ps) in *. change (map fst (s_results s)) with (names (s_results s)) in *.
+  cbn [forallb] in Hbind. apply andb_true_iff in Hbind as [Hb1 Hbind].
+  apply andb_true_iff in Hbind as [Hb2 Hbps].
   assert (Hnd' : NoDup ((n2 :: n1 :: names ps) ++ filter bindable (names (s_results s)))).
   { eapply Permutation_NoDup; [|exact Hnd]. cbn [app]. apply perm_swap. }
   cbn [app] in Hnd. apply NoDup_cons_iff in Hnd as [Hn1 Hnd]. apply NoDup_cons_iff in Hnd as [Hn2 Hnd].
   assert (H12 : n1 <> n2) by (intros ->; apply Hn1; left; reflexivity).
   assert (Hn1ps : ~ In n1 (names ps)) by (intros Hi; apply Hn1; right; apply in_or_app; left; exact Hi).
   assert (Hn2ps : ~ In n2 (names ps)) by (intros Hi; apply Hn2, in_or_app; left; exact Hi).
-  assert (Hfps : ~ In "f" (names ps)).
-  { intros Hi. rewrite forallb_forall in Hgps. apply (good_not_f "f"); [apply Hgps, Hi|reflexivity]. }
+  assert (Hfps : ~ In fn (names ps)) by (intros Hi; apply Hfp; right; right; exact Hi).
+  assert (Hn1f : (n1 =s fn) = false) by (apply eqb_false_of_neq; intros ->; apply Hfp; left; reflexivity).
+  assert (Hn2f : (n2 =s fn) = false) by (apply eqb_false_of_neq; intros ->; apply Hfp; right; left; reflexivity).
   assert (Hlen : length (names ps) = length xs) by (unfold names; rewrite map_length; symmetry; exact Hl).
   assert (Hok : lam_ok (n2 :: n1 :: names ps) (names (s_results s)) = true).
-  { apply lam_ok_good; [|assumption|assumption]. cbn [forallb]. rewrite Hb1, Hb2.
-    apply forall_good_bindable; assumption. }
+  { apply lam_ok_good; [|assumption|assumption]. cbn [forallb]. rewrite Hb1, Hb2. exact Hbps. }
   unfold run_term. change (FUEL + k) with (S (11 + k)) at 1.
-  rewrite decl_value_lam by reflexivity.
+  rewrite decl_value_lam by apply lam_ok_single.
   cbn [apply_chain].
   change (FUEL + k) with (2 + (10 + k)).
   rewrite apply_clo_lam by (try reflexivity; exact Hok).
-  cbn [bind]. change (bindable "f") with true. cbv iota.
+  cbn [bind]. rewrite Hbf.
   change (2 + (10 + k)) with (S (3 + (8 + k))).
-  erewrite apply_clo_stmt; [reflexivity|cbn [length]; rewrite Hlen; reflexivity| |].
+  erewrite apply_clo_stmt; [reflexivity|exact Hv|cbn [length]; rewrite Hlen; reflexivity| |].
   - unfold prim_flat. cbn [bind]. rewrite Hb1, Hb2.
-    apply good_not_f in Hg1, Hg2. apply String.eqb_neq in Hg1, Hg2.
-    assert (E21 : (n2 =s n1) = false) by (apply String.eqb_neq; congruence).
+    assert (E21 : (n2 =s n1) = false) by (apply eqb_false_of_neq; congruence).
     eapply call_f_flat.
-    + unfold lookup_var. cbn [bindable lookup]. change (bindable "f") with true. cbv iota.
-      rewrite Hg1, Hg2.
+    + unfold lookup_var. rewrite Hbf. cbn [lookup]. rewrite Hn1f, Hn2f.
       rewrite lookup_bind_skip by exact Hfps. rewrite lookup_bind_skip by exact Hf.
-      cbn. reflexivity.
+      cbn [lookup]. rewrite String.eqb_refl. reflexivity.
     + cbn [lookup_all]. unfold lookup_var at 1 2. rewrite Hb1, Hb2. cbn [lookup].
       rewrite E21, !String.eqb_refl.
       rewrite !lookup_all_cons_skip by assumption.
-      rewrite lookup_all_bind; [reflexivity|apply forall_good_bindable; assumption| |exact Hlen].
+      rewrite lookup_all_bind; [reflexivity|assumption| |exact Hlen].
       apply NoDup_app_l in Hnd. exact Hnd.
     + cbn. rewrite Hp. cbn. do 2 f_equal. exact Hl.
   - apply prim_results_length.
 Qed.
 
 (* ---------- apply ---------- *)
-Lemma lam_ok_f_last nl : good_name nl = true -> lam_ok ["f"; nl] [""] = true.
+Lemma lam_ok_f_last fn nl : bindable fn = true -> bindable nl = true -> fn <> nl -> lam_ok [fn; nl] [""] = true.
 Proof.
-  intros Hg. pose proof (good_bindable _ Hg) as Hb. pose proof (good_not_f _ Hg) as Hf.
-  unfold lam_ok, names_form. cbn. unfold bindable in Hb. apply andb_true_iff in Hb as [He Hu].
-  rewrite He. cbn. unfold bindable. rewrite He, Hu. cbn.
-  assert (E : ("f" =s nl) = false) by (apply String.eqb_neq; congruence). rewrite E. reflexivity.
+  intros Hbf Hbl Hne. apply lam_ok_good.
+  - cbn [forallb]. rewrite Hbf, Hbl. reflexivity.
+  - reflexivity.
+  - cbn. constructor; [intros [H|[]]; congruence|]. constructor; [intros []|constructor].
 Qed.
 
-Lemma apply_core k (s : sig) init nl tl vs bound t :
+Lemma apply_core v fn k (s : sig) init nl tl vs bound t :
+  v_void_stmt v = true ->
   s_params s = init ++ [(nl, tl)] ->
-  guardb (names (s_params s)) (names (s_results s)) = true ->
+  guardf fn (names (s_params s)) (names (s_results s)) = true ->
   length vs = length init ->
-  apply_term fixed s = Some t ->
+  apply_term_f fn v s = Some t ->
   run_term res (FUEL + k) t [[prim_flat s; bound]; vs]
   = ROk (prim_results res (length (s_results s)) [vs ++ [bound]]) [(0, vs ++ [bound])].
 Proof.
-  intros Hp Hg Hl Ht.
-  apply guardb_spec in Hg as (Hgood & Hform & Hnd & Hf). rewrite Hp in Hgood, Hnd.
-  unfold names in Hgood, Hnd. rewrite map_app in Hgood, Hnd. cbn [map fst] in Hgood, Hnd.
-  change (map fst init) with (names init) in *.
-  rewrite forallb_app in Hgood. apply andb_true_iff in Hgood as [Hgi Hgl].
-  cbn [forallb] in Hgl. rewrite andb_true_r in Hgl.
-  assert (Hbl : bindable nl = true) by (apply good_bindable; assumption).
+  intros Hv Hp Hg Hl Ht.
+  apply guardf_spec in Hg as (Hbf & Hfp & Hf & Hbind & Hform & Hnd). rewrite Hp in Hfp, Hbind, Hnd.
+  unfold names in Hfp, Hbind, Hnd. rewrite map_app in Hfp, Hbind, Hnd. cbn [map fst] in Hfp, Hbind, Hnd.
+  change (map fst init) with (names init) in *. change (map fst (s_results s)) with (names (s_results s)) in *.
+  rewrite forallb_app in Hbind. apply andb_true_iff in Hbind as [Hbi Hbl].
+  cbn [forallb] in Hbl. rewrite andb_true_r in Hbl.
   rewrite <- app_assoc in Hnd.
   assert (Hnli : ~ In nl (names init)).
-  { intros Hi. apply NoDup_app_r in Hnd as Hr. apply in_split in Hi as (l1 & l2 & E).
+  { intros Hi. apply in_split in Hi as (l1 & l2 & E).
     rewrite E in Hnd. rewrite <- app_assoc in Hnd. apply NoDup_app_r in Hnd. cbn [app] in Hnd.
     apply NoDup_cons_iff in Hnd as [Hx _]. apply Hx, in_or_app. right. left. reflexivity. }
   assert (Hnlr : ~ In nl (names (s_results s))).
   { intros Hi. apply NoDup_app_r in Hnd. cbn [app] in Hnd. apply NoDup_cons_iff in Hnd as [Hx _].
     apply Hx, in_names_results; assumption. }
-  assert (Hndi : NoDup (names init ++ filter bindable (map fst (s_results s)))).
+  assert (Hndi : NoDup (names init ++ filter bindable (names (s_results s)))).
   { clear - Hnd. induction (names init) as [|x l IH]; cbn [app] in *.
     - apply NoDup_cons_iff in Hnd. tauto.
     - apply NoDup_cons_iff in Hnd as [Hx Hnd]. constructor; [|auto].
       intros Hi. apply Hx. apply in_app_or in Hi as [Hi|Hi]; apply in_or_app; [left; exact Hi|].
       right. right. exact Hi. }
-  assert (Hfi : ~ In "f" (names init)).
-  { intros Hi. rewrite forallb_forall in Hgi. apply (good_not_f "f"); [apply Hgi, Hi|reflexivity]. }
+  assert (Hfi : ~ In fn (names init)) by (intros Hi; apply Hfp, in_or_app; left; exact Hi).
+  assert (Hfl : fn <> nl) by (intros ->; apply Hfp, in_or_app; right; left; reflexivity).
   assert (Hlen : length (names init) = length vs) by (unfold names; rewrite map_length; symmetry; exact Hl).
-  assert (Hok : lam_ok (names init) (names (s_results s)) = true).
-  { apply lam_ok_good; [apply forall_good_bindable; assumption|assumption|exact Hndi]. }
+  assert (Hok : lam_ok (names init) (names (s_results s)) = true) by (apply lam_ok_good; assumption).
   assert (Hsl : split_last (s_params s) = Some (init, (nl, tl))).
   { rewrite Hp. clear. induction init as [|x l IH]; [reflexivity|]. cbn [app split_last].
     rewrite IH. destruct (l ++ [(nl, tl)]) eqn:E; [destruct l; discriminate|reflexivity]. }
-  unfold apply_term, apply_sig in Ht. rewrite Hsl in Ht. injection Ht as <-. cbn [fst s_params s_results].
+  unfold apply_term_f, apply_sig in Ht. rewrite Hsl in Ht. injection Ht as <-. cbn [fst s_params s_results].
   unfold run_term. change (FUEL + k) with (S (11 + k)) at 1.
   rewrite decl_value_lam by (apply lam_ok_f_last; assumption).
   cbn [apply_chain].
   change (FUEL + k) with (2 + (10 + k)).
   rewrite apply_clo_lam by (try reflexivity; exact Hok).
-  cbn [bind]. change (bindable "f") with true. rewrite Hbl. cbv iota.
+  cbn [bind]. rewrite Hbf, Hbl.
   change (2 + (10 + k)) with (S (3 + (8 + k))).
-  erewrite apply_clo_stmt; [reflexivity|exact Hlen| |].
+  erewrite apply_clo_stmt; [reflexivity|exact Hv|exact Hlen| |].
   - unfold prim_flat. rewrite Hp at 2. unfold names at 4. rewrite map_app. cbn [map fst].
     change (map fst init) with (names init).
     eapply call_f_flat.
     + rewrite lookup_var_bind_skip by exact Hfi. rewrite lookup_var_bind_skip by exact Hf.
-      reflexivity.
+      unfold lookup_var. rewrite Hbf. cbn [lookup]. rewrite String.eqb_refl. reflexivity.
     + rewrite lookup_all_app.
-      rewrite lookup_all_bind; [|apply forall_good_bindable; assumption|apply NoDup_app_l in Hndi; exact Hndi|exact Hlen].
+      rewrite lookup_all_bind; [|assumption|apply NoDup_app_l in Hndi; exact Hndi|exact Hlen].
       cbn [lookup_all].
       rewrite lookup_var_bind_skip by exact Hnli. rewrite lookup_var_bind_skip by exact Hnlr.
       unfold lookup_var. rewrite Hbl. cbn [lookup].
-      apply good_not_f in Hgl.
-      assert (E : ("f" =s nl) = false) by (apply String.eqb_neq; congruence).
-      rewrite E, String.eqb_refl. reflexivity.
+      rewrite (eqb_false_of_neq _ _ Hfl), String.eqb_refl. reflexivity.
     + rewrite Hp, !app_length, Hl. reflexivity.
   - apply prim_results_length.
 Qed.
@@ -469,32 +559,30 @@ Proof.
   cbn in H. injection H as -> H. cbn in Hl. injection Hl as Hl. destruct (IH a' Hl H) as [-> ->]. auto.
 Qed.
 
-Lemma uncurry_core k (c : csig) vo vi :
-  guardb (names (c_outer c) ++ names (c_inner c)) (names (c_results c)) = true ->
+Lemma uncurry_core v fn k (c : csig) vo vi :
+  v_void_stmt v = true ->
+  guardf fn (names (c_outer c) ++ names (c_inner c)) (names (c_results c)) = true ->
   length vo = length (c_outer c) -> length vi = length (c_inner c) ->
-  run_term res (FUEL + k) (uncurry_term fixed c) [[prim_curried c]; vo ++ vi]
+  run_term res (FUEL + k) (uncurry_term_f fn v c) [[prim_curried c]; vo ++ vi]
   = ROk (prim_results res (length (c_results c)) [vo; vi]) [(0, vo); (1, vi)].
 Proof.
-  intros Hg Hlo Hli.
-  apply guardb_spec in Hg as (Hgood & Hform & Hnd & Hf).
+  intros Hv Hg Hlo Hli.
+  apply guardf_spec in Hg as (Hbf & Hfn & Hf & Hb & Hform & Hnd).
   set (no := names (c_outer c)) in *. set (ni := names (c_inner c)) in *.
   set (rs := names (c_results c)) in *.
-  assert (Hb : forallb bindable (no ++ ni) = true) by (apply forall_good_bindable; assumption).
-  assert (Hfn : ~ In "f" (no ++ ni)).
-  { intros Hi. rewrite forallb_forall in Hgood. apply (good_not_f "f"); [apply Hgood, Hi|reflexivity]. }
   assert (Hlen : length (no ++ ni) = length (vo ++ vi)).
   { rewrite !app_length. unfold no, ni, names. rewrite !map_length. lia. }
   assert (Hok : lam_ok (no ++ ni) rs = true) by (apply lam_ok_good; assumption).
-  unfold uncurry_term, uncurry_sig. cbn [s_params s_results].
+  unfold uncurry_term_f, uncurry_sig. cbn [s_params s_results].
   unfold names at 1. rewrite map_app. fold (names (c_outer c)) (names (c_inner c)). fold no ni rs.
   unfold run_term. change (FUEL + k) with (S (11 + k)) at 1.
-  rewrite decl_value_lam by reflexivity.
+  rewrite decl_value_lam by apply lam_ok_single.
   cbn [apply_chain].
   change (FUEL + k) with (2 + (10 + k)).
   rewrite apply_clo_lam by (try reflexivity; exact Hok).
-  cbn [bind]. change (bindable "f") with true. cbv iota.
+  cbn [bind]. rewrite Hbf.
   change (2 + (10 + k)) with (S (4 + (7 + k))).
-  pose proof (lookup_all_bind (no ++ ni) (vo ++ vi) (bind rs (zeros rs) [("f", prim_curried c)]) Hb
+  pose proof (lookup_all_bind (no ++ ni) (vo ++ vi) (bind rs (zeros rs) [(fn, prim_curried c)]) Hb
                 (NoDup_app_l _ _ Hnd) Hlen) as Hall.
   rewrite lookup_all_app in Hall.
   destruct (lookup_all _ no) as [a|] eqn:Ea; [|discriminate].
@@ -503,9 +591,10 @@ Proof.
   apply app_eq_length in Hall as [-> ->].
   2:{ apply lookup_all_length in Ea. rewrite Ea. unfold no, names. rewrite map_length. symmetry. exact Hlo. }
   subst no ni rs.
-  erewrite apply_clo_stmt; [reflexivity|exact Hlen| |].
+  erewrite apply_clo_stmt; [reflexivity|exact Hv|exact Hlen| |].
   - unfold prim_curried. eapply call_f_curried; [|exact Ea|exact Eb|exact Hlo|exact Hli].
-    rewrite lookup_var_bind_skip by exact Hfn. rewrite lookup_var_bind_skip by exact Hf. reflexivity.
+    rewrite lookup_var_bind_skip by exact Hfn. rewrite lookup_var_bind_skip by exact Hf.
+    unfold lookup_var. rewrite Hbf. cbn [lookup]. rewrite String.eqb_refl. reflexivity.
   - apply prim_results_length.
 Qed.
 
@@ -582,12 +671,6 @@ Lemma rename_from_types v pre i ps : map snd (rename_from v pre i ps) = map snd 
 Proof.
   revert i; induction ps as [|[n t] r IH]; intros i; cbn; [reflexivity|]. rewrite IH.
   destruct (is_blank v n || prefix pre n); reflexivity.
-Qed.
-
-Lemma prefix_append p s : prefix p (String.append p s) = true.
-Proof.
-  induction p as [|a p IH]; cbn; [destruct s; reflexivity|].
-  destruct (ascii_dec a a); [exact IH|congruence].
 Qed.
 
 Lemma rename_from_names_in v pre i ps n :
@@ -676,24 +759,234 @@ Proof.
       intros x Hx. unfold nonblank. rewrite (E x Hx). reflexivity.
 Qed.
 
-Lemma good_names_no_blank ps : forallb good_name (names ps) = true -> has_blank fixed ps = false.
+(* ====================================================================================== *)
+(* derive/params.go, current tree: RenameClashingIdentifierWith                             *)
+
+Lemma is_blank_bindable v n : v_blank_empty v = true -> is_blank v n = negb (bindable n).
 Proof.
-  unfold has_blank. induction ps as [|[m t] r IH]; cbn; [reflexivity|].
-  rewrite andb_true_iff. intros [Hm Hr]. rewrite IH by assumption.
-  apply good_bindable in Hm. unfold bindable in Hm. apply andb_true_iff in Hm as [He Hu].
-  apply negb_true_iff in He, Hu. unfold is_blank. cbn. rewrite He, Hu. reflexivity.
+  intros H. unfold is_blank, bindable. rewrite H. cbn.
+  destruct (n =s "_"), (n =s ""); reflexivity.
 Qed.
 
-Lemma rename_blank_good pre ps : forallb good_name (names ps) = true -> rename_blank fixed pre ps = ps.
-Proof. intros H. unfold rename_blank. rewrite good_names_no_blank by assumption. reflexivity. Qed.
+Lemma blank_not_bindable v n : is_blank v n = true -> bindable n = false.
+Proof.
+  unfold is_blank, bindable. intros H. apply orb_true_iff in H as [H|H].
+  - rewrite H. apply andb_false_r.
+  - apply andb_true_iff in H as [_ H]. rewrite H. reflexivity.
+Qed.
+
+Lemma filter_ext' {A} (f g : A -> bool) l : (forall a, f a = g a) -> filter f l = filter g l.
+Proof. intros H. induction l as [|x r IH]; cbn; [reflexivity|]. rewrite H, IH. reflexivity. Qed.
+
+Lemma rename_avoid_from_length v pre i taken done ps :
+  length (rename_avoid_from v pre i taken done ps) = length ps.
+Proof.
+  revert i done; induction ps as [|[n t] r IH]; intros i done; cbn [rename_avoid_from length]; [reflexivity|].
+  rewrite IH. reflexivity.
+Qed.
+
+Lemma rename_avoid_from_types v pre i taken done ps :
+  map snd (rename_avoid_from v pre i taken done ps) = map snd ps.
+Proof.
+  revert i done; induction ps as [|[n t] r IH]; intros i done; cbn [rename_avoid_from map snd]; [reflexivity|].
+  rewrite IH. reflexivity.
+Qed.
+
+(* every name of the output is either kept (a name of the input that can be referred to, does not
+   carry the prefix and is not taken) or made up (carries the prefix, can be referred to, is not
+   taken and is not one of the names decided before) *)
+Lemma rename_avoid_from_in v c pre' i taken done ps x :
+  c <> "_"%char ->
+  In x (names (rename_avoid_from v (String c pre') i taken done ps)) ->
+  (In x (names ps) /\ is_blank v x = false /\ prefix (String c pre') x = false /\ ~ In x taken)
+  \/ (prefix (String c pre') x = true /\ bindable x = true /\ ~ In x taken /\ ~ In x done).
+Proof.
+  intros Hc. revert i done; induction ps as [|[m t] r IH]; intros i done; [intros []|].
+  cbn [rename_avoid_from]. cbv zeta. unfold names. cbn [map fst]. fold (names r).
+  fold (names (rename_avoid_from v (String c pre') (S i) taken
+          (done ++ [if is_blank v m || prefix (String c pre') m || memb m taken
+                    then unused_name (String.append (String c pre') (itoa i)) (done ++ taken) else m]) r)).
+  intros [H|H].
+  - destruct (is_blank v m || prefix (String c pre') m || memb m taken) eqn:E.
+    + right. subst x. destruct (made_up c pre' i (done ++ taken) Hc) as (Hp & Hb & Hn).
+      repeat split; auto; intros Hi; apply Hn, in_or_app; auto.
+    + left. subst x. apply orb_false_iff in E as [E Et]. apply orb_false_iff in E as [Eb Ep].
+      split; [left; reflexivity|]. split; [exact Eb|]. split; [exact Ep|]. apply memb_false. exact Et.
+  - apply IH in H as [(Hi & Hb & Hp & Ht)|(Hp & Hb & Ht & Hd)].
+    + left. split; [right; exact Hi|]. auto.
+    + right. split; [exact Hp|]. split; [exact Hb|]. split; [exact Ht|]. intros Hi. apply Hd, in_or_app. left. exact Hi.
+Qed.
+
+Lemma rename_avoid_from_nodup v c pre' i taken done ps :
+  c <> "_"%char ->
+  NoDup (filter (nonblank v) (names ps)) ->
+  NoDup (names (rename_avoid_from v (String c pre') i taken done ps)).
+Proof.
+  intros Hc. revert i done; induction ps as [|[m t] r IH]; intros i done Hn; [constructor|].
+  cbn [rename_avoid_from]. cbv zeta. unfold names. cbn [map fst].
+  set (m' := if is_blank v m || prefix (String c pre') m || memb m taken
+             then unused_name (String.append (String c pre') (itoa i)) (done ++ taken) else m).
+  fold (names (rename_avoid_from v (String c pre') (S i) taken (done ++ [m']) r)).
+  unfold names in Hn. cbn [map fst filter] in Hn. fold (names r) in Hn.
+  constructor.
+  - intros Hi. apply rename_avoid_from_in in Hi as [(Hi & Hb & Hp & _)|(_ & _ & _ & Hd)]; [| |exact Hc].
+    + subst m'. destruct (is_blank v m || prefix (String c pre') m || memb m taken) eqn:E.
+      * destruct (made_up c pre' i (done ++ taken) Hc) as (Hp' & _). rewrite Hp' in Hp. discriminate.
+      * unfold nonblank in Hn at 1. rewrite Hb in Hn. cbn [negb] in Hn.
+        apply NoDup_cons_iff in Hn as [Hx _]. apply Hx, filter_In. split; [exact Hi|].
+        unfold nonblank. rewrite Hb. reflexivity.
+    + apply Hd, in_or_app. right. left. reflexivity.
+  - apply IH. destruct (nonblank v m); [apply NoDup_cons_iff in Hn; tauto|exact Hn].
+Qed.
+
+Lemma needs_rename_false v taken ps :
+  needs_rename v taken ps = false ->
+  Forall (fun n => is_blank v n = false) (names ps) /\ (forall x, In x (names ps) -> ~ In x taken).
+Proof.
+  unfold needs_rename. intros H. apply orb_false_iff in H as [Hb Ht]. split.
+  - apply has_blank_false, Hb.
+  - intros x Hx. apply in_map_iff in Hx as (p & <- & Hp).
+    apply memb_false. destruct (memb (fst p) taken) eqn:E; [|reflexivity].
+    assert (existsb (fun p => memb (fst p) taken) ps = true) by (apply existsb_exists; eauto). congruence.
+Qed.
+
+(* the contract of the renaming of the current tree: types and length are kept; afterwards every
+   parameter can be referred to and none has a taken name; parameters that were pairwise distinct
+   (as far as they could be referred to) are pairwise distinct; nothing changes unless a
+   parameter is blank, unnamed or has a taken name *)
+Theorem rename_avoid_spec v c pre' taken ps :
+  v_blank_empty v = true -> c <> "_"%char ->
+  let out := rename_avoid v (String c pre') taken ps in
+  map snd out = map snd ps
+  /\ length out = length ps
+  /\ forallb bindable (names out) = true
+  /\ (forall x, In x (names out) -> ~ In x taken)
+  /\ (NoDup (filter bindable (names ps)) -> NoDup (names out))
+  /\ (needs_rename v taken ps = false -> out = ps).
+Proof.
+  intros Hv Hc out. subst out. unfold rename_avoid.
+  assert (Hnb : forall n, nonblank v n = bindable n).
+  { intros n. unfold nonblank. rewrite (is_blank_bindable v n Hv). apply negb_involutive. }
+  destruct (needs_rename v taken ps) eqn:E.
+  - split; [apply rename_avoid_from_types|]. split; [apply rename_avoid_from_length|].
+    split; [|split; [|split; [|discriminate]]].
+    + apply forallb_forall. intros x Hx.
+      apply rename_avoid_from_in in Hx as [(_ & Hb & _)|(_ & Hb & _)]; [|exact Hb|exact Hc].
+      rewrite (is_blank_bindable v x Hv) in Hb. apply negb_false_iff in Hb. exact Hb.
+    + intros x Hx. apply rename_avoid_from_in in Hx as [(_ & _ & _ & Ht)|(_ & _ & Ht & _)]; [exact Ht|exact Ht|exact Hc].
+    + intros Hn. apply rename_avoid_from_nodup; [exact Hc|].
+      rewrite (filter_ext' _ _ _ Hnb). exact Hn.
+  - destruct (needs_rename_false _ _ _ E) as [Hb Ht].
+    assert (Hall : forallb bindable (names ps) = true).
+    { apply forallb_forall. intros x Hx. rewrite Forall_forall in Hb. specialize (Hb x Hx).
+      rewrite (is_blank_bindable v x Hv) in Hb. apply negb_false_iff in Hb. exact Hb. }
+    repeat split; auto.
+    intros Hn. rewrite filter_all in Hn by exact Hall. exact Hn.
+Qed.
+
+Lemma rename_avoid_length v pre taken ps : length (rename_avoid v pre taken ps) = length ps.
+Proof. unfold rename_avoid. destruct (needs_rename v taken ps); [apply rename_avoid_from_length|reflexivity]. Qed.
+
+Lemma rename_params_length v pre taken ps : length (rename_params v pre taken ps) = length ps.
+Proof.
+  unfold rename_params. destruct (v_hygiene v); [apply rename_avoid_length|apply rename_blank_length].
+Qed.
+
+(* names that are already usable and not taken are left alone *)
+Lemma rename_avoid_id v pre taken ps :
+  forallb bindable (names ps) = true -> (forall x, In x (names ps) -> ~ In x taken) ->
+  rename_avoid v pre taken ps = ps.
+Proof.
+  intros Hb Ht. unfold rename_avoid.
+  replace (needs_rename v taken ps) with false; [reflexivity|].
+  symmetry. unfold needs_rename. apply orb_false_iff. split.
+  - unfold has_blank. destruct (existsb _ ps) eqn:E; [|reflexivity].
+    apply existsb_exists in E as (p & Hp & Hbl). apply blank_not_bindable in Hbl.
+    rewrite forallb_forall in Hb. rewrite Hb in Hbl; [discriminate|]. apply in_map. exact Hp.
+  - destruct (existsb _ ps) eqn:E; [|reflexivity].
+    apply existsb_exists in E as (p & Hp & Hm). apply memb_In in Hm.
+    exfalso. apply (Ht (fst p)); [apply in_map; exact Hp|exact Hm].
+Qed.
 
 (* ====================================================================================== *)
-(* the property theorems, from the signature goderive is handed (before its own renaming)   *)
+(* the names the current tree prints satisfy what the closure nests need                    *)
 
-Lemma guard_sig_names_ok ps rs : guardb ps rs = true -> lam_ok ps rs = true.
+Lemma src_ok_spec ps rs :
+  src_ok ps rs = true ->
+  names_form rs = true /\ NoDup (filter bindable ps) /\ NoDup (filter bindable rs).
+Proof. unfold src_ok. rewrite !andb_true_iff, !nodupb_NoDup. tauto. Qed.
+
+Lemma guardf_intro fn ps rs :
+  bindable fn = true -> ~ In fn ps -> ~ In fn rs -> forallb bindable ps = true ->
+  names_form rs = true -> NoDup (ps ++ filter bindable rs) -> guardf fn ps rs = true.
 Proof.
-  intros Hg. apply guardb_spec in Hg as (Hgood & Hform & Hnd & _).
-  apply lam_ok_good; [apply forall_good_bindable; assumption|assumption|assumption].
+  intros. unfold guardf. rewrite !andb_true_iff, !negb_true_iff, !memb_false, nodupb_NoDup. tauto.
+Qed.
+
+(* curry, flip, apply: parameters renamed with "param_", the results taken *)
+Lemma flat_guard c pre' (ps : list (name * ty)) (rs : list name) :
+  c <> "_"%char -> src_ok (names ps) rs = true ->
+  let ps' := names (rename_params hygienic (String c pre') rs ps) in
+  guardf (fname hygienic ps' rs) ps' rs = true.
+Proof.
+  intros Hc Hsrc ps'. apply src_ok_spec in Hsrc as (Hform & Hndp & Hndr).
+  destruct (rename_avoid_spec hygienic c pre' rs ps eq_refl Hc) as (_ & _ & Hb & Ht & Hnd & _).
+  cbv zeta in Hb, Ht, Hnd.
+  destruct (fname_fresh ps' rs) as (Hbf & Hfp & Hfr). cbv zeta in Hbf, Hfp, Hfr.
+  apply guardf_intro; auto.
+  apply NoDup_app_intro; [apply Hnd, Hndp|exact Hndr|].
+  intros x Hx Hi. apply filter_In in Hi as [Hi _]. exact (Ht x Hx Hi).
+Qed.
+
+(* uncurry: inner parameters renamed with "innerParam_" (results taken), then the outer parameter
+   with "param_" (its own result, the renamed inner parameters and the results taken) *)
+Lemma uncurry_guard (c0 : csig) :
+  NoDup (filter bindable (names (c_outer c0))) ->
+  src_ok (names (c_inner c0)) (names (c_results c0)) = true ->
+  let rs := names (c_results c0) in
+  let inner := rename_params hygienic "innerParam_" rs (c_inner c0) in
+  let outer := rename_params hygienic "param_" (c_rname c0 :: names inner ++ rs) (c_outer c0) in
+  let c := mkCsig outer (c_rname c0) inner (c_results c0) (c_variadic c0) in
+  guardf (fname hygienic (names outer ++ names inner) rs) (names outer ++ names inner) rs = true
+  /\ csig_names_ok c = true.
+Proof.
+  intros Hndo Hsrc rs inner outer c. apply src_ok_spec in Hsrc as (Hform & Hndi & Hndr).
+  destruct (rename_avoid_spec hygienic "i" "nnerParam_" rs (c_inner c0) eq_refl ltac:(discriminate))
+    as (_ & _ & Hbi & Hti & Hni & _).
+  destruct (rename_avoid_spec hygienic "p" "aram_" (c_rname c0 :: names inner ++ rs) (c_outer c0) eq_refl
+              ltac:(discriminate)) as (_ & _ & Hbo & Hto & Hno & _).
+  cbv zeta in Hbi, Hti, Hni, Hbo, Hto, Hno.
+  change (rename_avoid hygienic "innerParam_" rs (c_inner c0)) with inner in *.
+  change (rename_avoid hygienic "param_" (c_rname c0 :: names inner ++ rs) (c_outer c0)) with outer in *.
+  specialize (Hni Hndi). specialize (Hno Hndo).
+  assert (Hoi : forall x, In x (names outer) -> ~ In x (names inner)).
+  { intros x Hx Hi. apply (Hto x Hx). right. apply in_or_app. left. exact Hi. }
+  assert (Hor : forall x, In x (names outer) -> ~ In x rs).
+  { intros x Hx Hi. apply (Hto x Hx). right. apply in_or_app. right. exact Hi. }
+  assert (Hndoi : NoDup (names outer ++ names inner)) by (apply NoDup_app_intro; assumption).
+  assert (Hndall : NoDup ((names outer ++ names inner) ++ filter bindable rs)).
+  { apply NoDup_app_intro; [exact Hndoi|exact Hndr|].
+    intros x Hx Hi. apply filter_In in Hi as [Hi _]. apply in_app_or in Hx as [Hx|Hx].
+    - exact (Hor x Hx Hi).
+    - exact (Hti x Hx Hi). }
+  split.
+  - destruct (fname_fresh (names outer ++ names inner) rs) as (Hbf & Hfp & Hfr). cbv zeta in Hbf, Hfp, Hfr.
+    apply guardf_intro; auto. rewrite forallb_app, Hbo, Hbi. reflexivity.
+  - unfold csig_names_ok. cbn [c_outer c_rname c_inner c_results c]. apply andb_true_iff. split.
+    + apply lam_ok_good; [exact Hbo| |].
+      * unfold names_form. cbn. destruct (c_rname c0 =s ""); reflexivity.
+      * apply NoDup_app_intro; [exact Hno| |].
+        -- cbn [filter]. destruct (bindable (c_rname c0)); repeat constructor. intros [].
+        -- intros x Hx Hi. apply filter_In in Hi as [Hi _]. cbn in Hi. destruct Hi as [Hi|[]].
+           apply (Hto x Hx). left. exact Hi.
+    + apply lam_ok_good; [exact Hbi|exact Hform|].
+      rewrite <- app_assoc in Hndall. apply NoDup_app_r in Hndall. exact Hndall.
+Qed.
+
+Lemma guard_sig_names_ok fn ps rs : guardf fn ps rs = true -> lam_ok ps rs = true.
+Proof.
+  intros Hg. apply guardf_spec in Hg as (_ & _ & _ & Hb & Hform & Hnd).
+  apply lam_ok_good; assumption.
 Qed.
 
 Lemma split_last_some {A} (l : list A) i x : split_last l = Some (i, x) -> l = i ++ [x].
@@ -721,112 +1014,116 @@ Variable res : nat -> list (list val) -> val.
 (* Curry: deriveCurry(f)(a1)(a2..an) calls f once with (a1..an) and returns its results *)
 Theorem plumb_correct_curry (s0 : sig) a1 rest k :
   s_variadic s0 = false ->
-  guardb (names (rename_blank fixed "param_" (s_params s0))) (names (s_results s0)) = true ->
+  src_ok (names (s_params s0)) (names (s_results s0)) = true ->
   2 <= length (s_params s0) ->
   length (a1 :: rest) = length (s_params s0) ->
-  run_curry res fixed (FUEL + k) s0 (prim_flat s0) (a1 :: rest)
+  run_curry res hygienic (FUEL + k) s0 (prim_flat s0) (a1 :: rest)
   = ROk (prim_results res (length (s_results s0)) [a1 :: rest]) [(0, a1 :: rest)].
 Proof.
-  intros Hv Hg H2 Hl. unfold run_curry, add_curry.
+  intros Hv Hsrc H2 Hl. unfold run_curry, add_curry.
   destruct (2 <=? length (s_params s0)) eqn:E; [|apply Nat.leb_gt in E; lia].
-  set (s := rename_sig fixed "param_" s0).
-  assert (Hlen : length (s_params s) = length (s_params s0)) by apply rename_blank_length.
+  set (s := rename_sig hygienic "param_" s0).
+  assert (Hlen : length (s_params s) = length (s_params s0)) by apply rename_params_length.
   assert (Hpf : prim_flat s0 = prim_flat s) by (unfold prim_flat; rewrite Hlen; reflexivity).
+  assert (Hgs : guardf (sig_fname hygienic s) (names (s_params s)) (names (s_results s)) = true).
+  { apply (flat_guard "p" "aram_" (s_params s0) (names (s_results s0))); [discriminate|exact Hsrc]. }
   destruct (s_params s) as [|p1 ps] eqn:Hp; [cbn in Hlen; lia|].
-  assert (Hgs : guardb (names (s_params s)) (names (s_results s)) = true) by exact Hg.
-  destruct (curry_term fixed s) as [t|] eqn:Ht;
-    [|unfold curry_term, curry_sig in Ht; rewrite Hp in Ht; discriminate].
+  unfold curry_term.
+  destruct (curry_term_f (sig_fname hygienic s) hygienic s) as [t|] eqn:Ht;
+    [|unfold curry_term_f, curry_sig in Ht; rewrite Hp in Ht; discriminate].
   change (s_variadic s) with (s_variadic s0). rewrite Hv.
-  unfold sig_names_ok. rewrite (guard_sig_names_ok _ _ Hgs). cbn [orb negb].
+  unfold sig_names_ok. rewrite Hp. rewrite (guard_sig_names_ok _ _ _ Hgs). cbn [orb negb].
   rewrite Hpf.
   change (length (s_results s0)) with (length (s_results s)).
-  eapply curry_core; eauto. cbn in Hl, Hlen. lia.
+  eapply (curry_core res hygienic); [reflexivity|exact Hp| |cbn in Hl, Hlen; lia|exact Ht].
+  rewrite Hp. exact Hgs.
 Qed.
 
 (* Flip: deriveFlip(f)(x1, x2, xs..) calls f once with (x2, x1, xs..) *)
 Theorem plumb_correct_flip (s0 : sig) x1 x2 xs k :
   s_variadic s0 = false ->
-  guardb (names (rename_blank fixed "param_" (s_params s0))) (names (s_results s0)) = true ->
+  src_ok (names (s_params s0)) (names (s_results s0)) = true ->
   length (x1 :: x2 :: xs) = length (s_params s0) ->
-  run_flip res fixed (FUEL + k) s0 (prim_flat s0) (x1 :: x2 :: xs)
+  run_flip res hygienic (FUEL + k) s0 (prim_flat s0) (x1 :: x2 :: xs)
   = ROk (prim_results res (length (s_results s0)) [x2 :: x1 :: xs]) [(0, x2 :: x1 :: xs)].
 Proof.
-  intros Hv Hg Hl. unfold run_flip, add_flip.
+  intros Hv Hsrc Hl. unfold run_flip, add_flip.
   destruct (2 <=? length (s_params s0)) eqn:E; [|apply Nat.leb_gt in E; cbn in Hl; lia].
-  set (s := rename_sig fixed "param_" s0).
-  assert (Hlen : length (s_params s) = length (s_params s0)) by apply rename_blank_length.
+  set (s := rename_sig hygienic "param_" s0).
+  assert (Hlen : length (s_params s) = length (s_params s0)) by apply rename_params_length.
   assert (Hpf : prim_flat s0 = prim_flat s) by (unfold prim_flat; rewrite Hlen; reflexivity).
+  assert (Hgs : guardf (sig_fname hygienic s) (names (s_params s)) (names (s_results s)) = true).
+  { apply (flat_guard "p" "aram_" (s_params s0) (names (s_results s0))); [discriminate|exact Hsrc]. }
   destruct (s_params s) as [|p1 [|p2 ps]] eqn:Hp; try (cbn in Hlen, Hl; lia).
-  assert (Hgs : guardb (names (s_params s)) (names (s_results s)) = true) by exact Hg.
-  destruct (flip_term fixed s) as [t|] eqn:Ht;
-    [|unfold flip_term, flip_sig in Ht; rewrite Hp in Ht; discriminate].
+  unfold flip_term.
+  destruct (flip_term_f (sig_fname hygienic s) hygienic s) as [t|] eqn:Ht;
+    [|unfold flip_term_f, flip_sig in Ht; rewrite Hp in Ht; discriminate].
   change (s_variadic s) with (s_variadic s0). rewrite Hv.
-  unfold sig_names_ok. rewrite (guard_sig_names_ok _ _ Hgs). cbn [orb negb].
+  unfold sig_names_ok. rewrite Hp. rewrite (guard_sig_names_ok _ _ _ Hgs). cbn [orb negb].
   rewrite Hpf.
   change (length (s_results s0)) with (length (s_results s)).
-  eapply flip_core; eauto. cbn in Hl, Hlen. lia.
+  eapply (flip_core res hygienic); [reflexivity|exact Hp| |cbn in Hl, Hlen; lia|exact Ht].
+  rewrite Hp. exact Hgs.
 Qed.
 
 (* Apply: deriveApply(f, b)(a1..a(n-1)) calls f once with (a1..a(n-1), b) *)
 Theorem plumb_correct_apply (s0 : sig) vs bound k :
   s_variadic s0 = false ->
-  guardb (names (rename_blank fixed "param_" (s_params s0))) (names (s_results s0)) = true ->
+  src_ok (names (s_params s0)) (names (s_results s0)) = true ->
   length (vs ++ [bound]) = length (s_params s0) ->
-  run_apply res fixed (FUEL + k) s0 (prim_flat s0) (vs ++ [bound])
+  run_apply res hygienic (FUEL + k) s0 (prim_flat s0) (vs ++ [bound])
   = ROk (prim_results res (length (s_results s0)) [vs ++ [bound]]) [(0, vs ++ [bound])].
 Proof.
-  intros Hv Hg Hl. unfold run_apply, add_apply. rewrite app_length in Hl. cbn in Hl.
+  intros Hv Hsrc Hl. unfold run_apply, add_apply. rewrite app_length in Hl. cbn in Hl.
   destruct (1 <=? length (s_params s0)) eqn:E; [|apply Nat.leb_gt in E; lia].
-  set (s := rename_sig fixed "param_" s0).
-  assert (Hlen : length (s_params s) = length (s_params s0)) by apply rename_blank_length.
+  set (s := rename_sig hygienic "param_" s0).
+  assert (Hlen : length (s_params s) = length (s_params s0)) by apply rename_params_length.
   assert (Hpf : prim_flat s0 = prim_flat s) by (unfold prim_flat; rewrite Hlen; reflexivity).
-  assert (Hgs : guardb (names (s_params s)) (names (s_results s)) = true) by exact Hg.
+  assert (Hgs : guardf (sig_fname hygienic s) (names (s_params s)) (names (s_results s)) = true).
+  { apply (flat_guard "p" "aram_" (s_params s0) (names (s_results s0))); [discriminate|exact Hsrc]. }
   destruct (split_last (s_params s)) as [[init [nl tl]]|] eqn:Hs.
   2:{ apply split_last_none in Hs. rewrite Hs in Hlen. cbn in Hlen. lia. }
   apply split_last_some in Hs as Hp.
-  destruct (apply_term fixed s) as [t|] eqn:Ht;
-    [|unfold apply_term, apply_sig in Ht; rewrite Hs in Ht; discriminate].
+  unfold apply_term.
+  destruct (apply_term_f (sig_fname hygienic s) hygienic s) as [t|] eqn:Ht;
+    [|unfold apply_term_f, apply_sig in Ht; rewrite Hs in Ht; discriminate].
   assert (Hsa : split_last (vs ++ [bound]) = Some (vs, bound)).
   { clear. induction vs as [|x l IH]; [reflexivity|]. cbn [app split_last].
     rewrite IH. destruct (l ++ [bound]) eqn:E; [destruct l; discriminate|reflexivity]. }
   rewrite Hsa.
   change (s_variadic s) with (s_variadic s0). rewrite Hv.
-  unfold sig_names_ok. rewrite (guard_sig_names_ok _ _ Hgs). cbn [orb negb].
+  unfold sig_names_ok. rewrite (guard_sig_names_ok _ _ _ Hgs). cbn [orb negb].
   rewrite Hpf.
   change (length (s_results s0)) with (length (s_results s)).
-  eapply apply_core; eauto. rewrite Hp, app_length in Hlen. cbn in Hlen. lia.
+  eapply (apply_core res hygienic); [reflexivity|exact Hp|exact Hgs| |exact Ht].
+  rewrite Hp, app_length in Hlen. cbn in Hlen. lia.
 Qed.
 
 (* Uncurry: deriveUncurry(f)(a, b1..bm) calls f once with (a) and its result once with (b1..bm) *)
 Theorem plumb_correct_uncurry (c0 : csig) vo vi k :
   c_variadic c0 = false ->
-  guardb (names (rename_blank fixed "param_" (c_outer c0)) ++
-          names (rename_blank fixed "innerParam_" (c_inner c0))) (names (c_results c0)) = true ->
-  bindable (c_rname c0) = false ->
+  nodupb (filter bindable (names (c_outer c0))) = true ->
+  src_ok (names (c_inner c0)) (names (c_results c0)) = true ->
   length (c_outer c0) = 1 ->
   length vo = length (c_outer c0) -> length vi = length (c_inner c0) ->
-  run_uncurry res fixed (FUEL + k) c0 (prim_curried c0) (vo ++ vi)
+  run_uncurry res hygienic (FUEL + k) c0 (prim_curried c0) (vo ++ vi)
   = ROk (prim_results res (length (c_results c0)) [vo; vi]) [(0, vo); (1, vi)].
 Proof.
-  intros Hv Hg Hrn H1 Hlo Hli. unfold run_uncurry, add_uncurry. rewrite H1. cbn [Nat.eqb].
-  set (c := mkCsig _ _ _ _ _).
-  assert (Hgc : guardb (names (c_outer c) ++ names (c_inner c)) (names (c_results c)) = true) by exact Hg.
+  intros Hv Hndo Hsrc H1 Hlo Hli. unfold run_uncurry, add_uncurry. rewrite H1. cbn [Nat.eqb]. cbv zeta.
+  apply nodupb_NoDup in Hndo.
+  destruct (uncurry_guard c0 Hndo Hsrc) as [Hgc Hok]. cbv zeta in Hgc, Hok.
+  set (c := mkCsig _ _ _ _ _) in *.
   cbn [c_variadic c]. rewrite Hv. cbn [orb].
-  assert (Hok : csig_names_ok c = true).
-  { apply guardb_spec in Hgc as (Hgood & Hform & Hnd & _).
-    rewrite forallb_app in Hgood. apply andb_true_iff in Hgood as [Hgo Hgi].
-    unfold csig_names_ok. apply andb_true_iff. split.
-    - apply lam_ok_good; [apply forall_good_bindable; assumption| |].
-      + cbn [c_rname c]. unfold names_form. cbn. destruct (c_rname c0 =s ""); reflexivity.
-      + cbn [c_rname c filter]. rewrite Hrn. rewrite app_nil_r. apply NoDup_app_l in Hnd.
-        apply NoDup_app_l in Hnd. exact Hnd.
-    - apply lam_ok_good; [apply forall_good_bindable; assumption|assumption|].
-      rewrite <- app_assoc in Hnd. apply NoDup_app_r in Hnd. exact Hnd. }
   rewrite Hok. cbn [negb].
   replace (prim_curried c0) with (prim_curried c).
-  2:{ unfold prim_curried, c. cbn [c_outer c_inner c_results]. rewrite !rename_blank_length. reflexivity. }
+  2:{ unfold prim_curried, c. cbn [c_outer c_inner c_results]. rewrite !rename_params_length. reflexivity. }
   change (length (c_results c0)) with (length (c_results c)).
-  apply uncurry_core; [exact Hgc| |]; unfold c; cbn [c_outer c_inner]; rewrite rename_blank_length; assumption.
+  unfold uncurry_term.
+  apply (uncurry_core res hygienic); [reflexivity| | |].
+  - unfold sig_fname, uncurry_sig. cbn [s_params s_results].
+    unfold names at 1. rewrite map_app. exact Hgc.
+  - unfold c; cbn [c_outer]; rewrite rename_params_length; assumption.
+  - unfold c; cbn [c_inner]; rewrite rename_params_length; assumption.
 Qed.
 
 (* Tuple: deriveTuple(a1..an)() returns exactly a1..an (and calls nothing) *)
@@ -843,38 +1140,38 @@ Local Arguments eval : simpl never.
 Local Arguments apply : simpl never.
 
 (* the innermost closure Curry builds, applied to the remaining arguments *)
-Lemma curry_inner k (s : sig) n1 t1 ps a1 rest log :
+Lemma curry_inner v fn k (s : sig) n1 t1 ps a1 rest log :
+  v_void_stmt v = true ->
   s_params s = (n1, t1) :: ps ->
-  guardb (names (s_params s)) (names (s_results s)) = true ->
+  guardf fn (names (s_params s)) (names (s_results s)) = true ->
   length rest = length ps ->
   apply res (S (3 + k))
-    (VClo [(n1, a1); ("f", prim_flat s)] (names ps) (names (s_results s))
-       (call_stmt fixed (s_results s) (Call (Var "f") (n1 :: names ps)))) rest log
+    (VClo [(n1, a1); (fn, prim_flat s)] (names ps) (names (s_results s))
+       (call_stmt v (s_results s) (Call (Var fn) (n1 :: names ps)))) rest log
   = Ok (prim_results res (length (s_results s)) [a1 :: rest], log ++ [(0, a1 :: rest)]).
 Proof.
-  intros Hp Hg Hl.
-  apply guardb_spec in Hg as (Hgood & Hform & Hnd & Hf). rewrite Hp in Hgood, Hnd. cbn [names map fst] in Hgood, Hnd.
-  cbn [forallb] in Hgood. apply andb_true_iff in Hgood as [Hg1 Hgps].
-  change (map fst ps) with (names ps) in *.
+  intros Hv Hp Hg Hl.
+  apply guardf_spec in Hg as (Hbf & Hfp & Hf & Hbind & Hform & Hnd).
+  rewrite Hp in Hfp, Hbind, Hnd. cbn [names map fst] in Hfp, Hbind, Hnd.
+  change (map fst ps) with (names ps) in *. change (map fst (s_results s)) with (names (s_results s)) in *.
+  cbn [forallb] in Hbind. apply andb_true_iff in Hbind as [Hb1 Hbps].
   cbn [app] in Hnd. apply NoDup_cons_iff in Hnd as [Hn1 Hnd].
-  assert (Hb1 : bindable n1 = true) by (apply good_bindable; assumption).
   assert (Hn1ps : ~ In n1 (names ps)) by (intros Hi; apply Hn1, in_or_app; left; exact Hi).
   assert (Hn1rs : ~ In n1 (names (s_results s)))
     by (intros Hi; apply Hn1, in_or_app; right; apply in_names_results; assumption).
-  assert (Hfps : ~ In "f" (names ps)).
-  { intros Hi. rewrite forallb_forall in Hgps. apply (good_not_f "f"); [apply Hgps, Hi|reflexivity]. }
+  assert (Hfps : ~ In fn (names ps)) by (intros Hi; apply Hfp; right; exact Hi).
+  assert (Hn1f : (n1 =s fn) = false) by (apply eqb_false_of_neq; intros ->; apply Hfp; left; reflexivity).
   assert (Hlen : length (names ps) = length rest) by (unfold names; rewrite map_length; symmetry; exact Hl).
-  erewrite apply_clo_stmt; [reflexivity|exact Hlen| |].
+  erewrite apply_clo_stmt; [reflexivity|exact Hv|exact Hlen| |].
   - unfold prim_flat. eapply call_f_flat.
     + rewrite lookup_var_bind_skip by exact Hfps.
       rewrite lookup_var_bind_skip by exact Hf.
-      unfold lookup_var. cbn. apply good_not_f in Hg1.
-      apply String.eqb_neq in Hg1. rewrite Hg1. reflexivity.
+      unfold lookup_var. rewrite Hbf. cbn [lookup]. rewrite Hn1f, String.eqb_refl. reflexivity.
     + cbn [lookup_all].
       rewrite lookup_var_bind_skip by exact Hn1ps.
       rewrite lookup_var_bind_skip by exact Hn1rs.
       unfold lookup_var at 1. rewrite Hb1. cbn [lookup]. rewrite String.eqb_refl.
-      rewrite lookup_all_bind; [reflexivity|apply forall_good_bindable; assumption| |exact Hlen].
+      rewrite lookup_all_bind; [reflexivity|assumption| |exact Hlen].
       apply NoDup_app_l in Hnd. exact Hnd.
     + cbn. rewrite Hp. cbn. f_equal. exact Hl.
   - apply prim_results_length.
@@ -882,73 +1179,88 @@ Qed.
 
 Theorem uncurry_curry_id (s0 : sig) a1 rest k :
   s_variadic s0 = false ->
-  guardb (names (rename_blank fixed "param_" (s_params s0))) (names (s_results s0)) = true ->
+  src_ok (names (s_params s0)) (names (s_results s0)) = true ->
   2 <= length (s_params s0) ->
   length (a1 :: rest) = length (s_params s0) ->
-  run_roundtrip res fixed (FUEL + k) s0 (prim_flat s0) (a1 :: rest)
+  run_roundtrip res hygienic (FUEL + k) s0 (prim_flat s0) (a1 :: rest)
   = ROk (prim_results res (length (s_results s0)) [a1 :: rest]) [(0, a1 :: rest)].
 Proof.
-  intros Hv Hg H2 Hl. unfold run_roundtrip, add_curry.
+  intros Hv Hsrc H2 Hl. unfold run_roundtrip, add_curry.
   destruct (2 <=? length (s_params s0)) eqn:E; [|apply Nat.leb_gt in E; lia].
-  set (s := rename_sig fixed "param_" s0).
-  assert (Hlen : length (s_params s) = length (s_params s0)) by apply rename_blank_length.
+  set (s := rename_sig hygienic "param_" s0).
+  assert (Hlen : length (s_params s) = length (s_params s0)) by apply rename_params_length.
   assert (Hpf : prim_flat s0 = prim_flat s) by (unfold prim_flat; rewrite Hlen; reflexivity).
-  assert (Hgs : guardb (names (s_params s)) (names (s_results s)) = true) by exact Hg.
+  assert (Hgs : guardf (sig_fname hygienic s) (names (s_params s)) (names (s_results s)) = true).
+  { apply (flat_guard "p" "aram_" (s_params s0) (names (s_results s0))); [discriminate|exact Hsrc]. }
+  remember (sig_fname hygienic s) as fn eqn:Hfn.
   destruct (s_params s) as [|[n1 t1] ps] eqn:Hp; [cbn in Hlen; lia|].
-  unfold curry_term, csig_of_curry, curry_sig. rewrite Hp. cbn [fst s_params s_results s_variadic].
+  unfold curry_term. rewrite <- Hfn.
+  unfold curry_term_f, csig_of_curry, curry_sig. rewrite Hp. cbn [fst s_params s_results s_variadic].
   change (s_variadic s) with (s_variadic s0). rewrite Hv.
-  unfold sig_names_ok. rewrite Hp. rewrite <- Hp in Hgs |- * at 1.
-  rewrite (guard_sig_names_ok _ _ Hgs). cbn [orb negb].
+  unfold sig_names_ok. rewrite Hp.
+  rewrite (guard_sig_names_ok _ _ _ Hgs). cbn [orb negb].
   (* facts about the names *)
-  pose proof Hgs as Hgs'. rewrite Hp in Hgs'. cbn [names map fst] in Hgs'. change (map fst ps) with (names ps) in Hgs'.
-  apply guardb_spec in Hgs' as (Hgood & Hform & Hnd & Hf).
-  cbn [forallb] in Hgood. apply andb_true_iff in Hgood as [Hg1 Hgps].
-  assert (Hb1 : bindable n1 = true) by (apply good_bindable; assumption).
+  pose proof Hgs as Hgs'. cbn [names map fst] in Hgs'. change (map fst ps) with (names ps) in Hgs'.
+  apply guardf_spec in Hgs' as (Hbf & Hfp & Hf & Hbind & Hform & Hnd).
+  change (map fst (s_results s)) with (names (s_results s)) in *.
+  cbn [forallb] in Hbind. apply andb_true_iff in Hbind as [Hb1 Hbps].
   assert (Hok_inner : lam_ok (names ps) (names (s_results s)) = true).
-  { apply lam_ok_good; [apply forall_good_bindable; assumption|assumption|].
+  { apply lam_ok_good; [assumption|assumption|].
     cbn [app] in Hnd. apply NoDup_cons_iff in Hnd. tauto. }
   assert (Hok_all : lam_ok (n1 :: names ps) (names (s_results s)) = true).
-  { apply lam_ok_good; [cbn [forallb]; rewrite Hb1; apply forall_good_bindable; assumption|assumption|exact Hnd]. }
-  (* Curry(F) *)
-  change (FUEL + k) with (S (11 + k)) at 1.
-  rewrite decl_value_lam by reflexivity.
-  change (FUEL + k) with (2 + (10 + k)) at 1.
-  rewrite apply_clo_lam by (try reflexivity; apply lam_ok_single).
-  cbn [bind]. change (bindable "f") with true. cbv iota.
-  (* Uncurry of that *)
-  unfold run_uncurry, add_uncurry. cbn [c_outer c_inner c_results c_variadic c_rname length Nat.eqb].
-  rewrite (rename_blank_good "param_" [(n1, t1)]) by (cbn; rewrite Hg1; reflexivity).
-  rewrite (rename_blank_good "innerParam_" ps) by exact Hgps.
-  cbn [orb].
-  unfold csig_names_ok. cbn [c_outer c_inner c_results c_rname names map fst].
-  change (map fst ps) with (names ps). change (map fst (s_results s)) with (names (s_results s)).
-  rewrite lam_ok_single, Hok_inner. cbn [andb negb].
-  unfold uncurry_term, uncurry_sig. cbn [c_outer c_inner c_results s_params s_results app names map fst].
-  change (map fst ps) with (names ps). change (map fst (s_results s)) with (names (s_results s)).
-  unfold run_term. change (FUEL + k) with (S (11 + k)) at 1.
-  rewrite decl_value_lam by reflexivity.
-  cbn [apply_chain].
-  change (FUEL + k) with (2 + (10 + k)) at 1.
-  rewrite apply_clo_lam by (try reflexivity; exact Hok_all).
-  cbn [bind]. change (bindable "f") with true. cbv iota.
-  assert (Hlr : length rest = length ps) by (cbn in Hl, Hlen; lia).
-  assert (Hlen' : length (names ps) = length rest) by (unfold names; rewrite map_length; symmetry; exact Hlr).
+  { apply lam_ok_good; [cbn [forallb]; rewrite Hb1; assumption|assumption|exact Hnd]. }
   assert (Hn1ps : ~ In n1 (names ps)).
   { cbn [app] in Hnd. apply NoDup_cons_iff in Hnd as [Hx _]. intros Hi. apply Hx, in_or_app. left. exact Hi. }
   assert (Hn1rs : ~ In n1 (names (s_results s))).
   { cbn [app] in Hnd. apply NoDup_cons_iff in Hnd as [Hx _]. intros Hi. apply Hx, in_or_app. right.
     apply in_names_results; assumption. }
-  assert (Hfps : ~ In "f" (names ps)).
-  { intros Hi. rewrite forallb_forall in Hgps. apply (good_not_f "f"); [apply Hgps, Hi|reflexivity]. }
-  pose proof (good_not_f _ Hg1) as Hn1f. apply String.eqb_neq in Hn1f.
+  assert (Hpsrs : forall x, In x (names ps) -> ~ In x (names (s_results s))).
+  { intros x Hx Hi. cbn [app] in Hnd. apply NoDup_cons_iff in Hnd as [_ Hnd].
+    assert (Hbx : bindable x = true) by (rewrite forallb_forall in Hbps; apply Hbps, Hx).
+    apply in_split in Hx as (l1 & l2 & El). rewrite El, <- app_assoc in Hnd.
+    apply NoDup_app_r in Hnd. cbn [app] in Hnd. apply NoDup_cons_iff in Hnd as [Hx _].
+    apply Hx, in_or_app. right. apply in_names_results; assumption. }
+  assert (Hfps : ~ In fn (names ps)) by (intros Hi; apply Hfp; right; exact Hi).
+  assert (Hn1f : (n1 =s fn) = false) by (apply eqb_false_of_neq; intros ->; apply Hfp; left; reflexivity).
+  (* Curry(F) *)
+  change (FUEL + k) with (S (11 + k)) at 1.
+  rewrite decl_value_lam by apply lam_ok_single.
+  change (FUEL + k) with (2 + (10 + k)) at 1.
+  rewrite apply_clo_lam by (try reflexivity; apply lam_ok_single).
+  cbn [bind]. rewrite Hbf.
+  (* Uncurry of that: nothing is renamed *)
+  unfold run_uncurry, add_uncurry. cbn [c_outer c_inner c_results c_variadic c_rname length Nat.eqb]. cbv zeta.
+  unfold rename_params. cbn [v_hygiene hygienic].
+  rewrite (rename_avoid_id hygienic "innerParam_" (names (s_results s)) ps Hbps Hpsrs).
+  rewrite (rename_avoid_id hygienic "param_" _ [(n1, t1)]).
+  2:{ cbn [names map fst forallb]. rewrite Hb1. reflexivity. }
+  2:{ intros x Hx Hi. cbn in Hx. destruct Hx as [<-|[]]. destruct Hi as [Hi|Hi].
+      - rewrite <- Hi in Hb1. discriminate.
+      - apply in_app_or in Hi as [Hi|Hi]; [exact (Hn1ps Hi)|exact (Hn1rs Hi)]. }
+  cbn [orb].
+  unfold csig_names_ok. cbn [c_outer c_inner c_results c_rname names map fst].
+  change (map fst ps) with (names ps). change (map fst (s_results s)) with (names (s_results s)).
+  rewrite lam_ok_single, Hok_inner. cbn [andb negb].
+  unfold uncurry_term, sig_fname, uncurry_sig. cbn [s_params s_results c_outer c_inner c_results app].
+  unfold sig_fname in Hfn. rewrite Hp in Hfn. rewrite <- Hfn.
+  unfold uncurry_term_f, uncurry_sig. cbn [c_outer c_inner c_results s_params s_results app names map fst].
+  change (map fst ps) with (names ps). change (map fst (s_results s)) with (names (s_results s)).
+  unfold run_term. change (FUEL + k) with (S (11 + k)) at 1.
+  rewrite decl_value_lam by apply lam_ok_single.
+  cbn [apply_chain].
+  change (FUEL + k) with (2 + (10 + k)) at 1.
+  rewrite apply_clo_lam by (try reflexivity; exact Hok_all).
+  cbn [bind]. rewrite Hbf.
+  assert (Hlr : length rest = length ps) by (cbn in Hl, Hlen; lia).
+  assert (Hlen' : length (names ps) = length rest) by (unfold names; rewrite map_length; symmetry; exact Hlr).
   change (FUEL + k) with (S (S (S (S (3 + (5 + k)))))).
-  erewrite apply_clo_stmt; [reflexivity|cbn [length]; rewrite Hlen'; reflexivity| |apply prim_results_length].
-  (* f(n1)(names ps) in the environment of the uncurried closure, f being Curry's closure *)
+  erewrite apply_clo_stmt; [reflexivity|reflexivity|cbn [length]; rewrite Hlen'; reflexivity| |apply prim_results_length].
+  (* fn(n1)(names ps) in the environment of the uncurried closure, fn being Curry's closure *)
   rewrite eval_S, eval_S, eval_S.
   cbn [bind]. rewrite Hb1.
   assert (Ef : forall W, lookup_var ((n1, a1) :: bind (names ps) rest
-               (bind (names (s_results s)) (zeros (names (s_results s))) [("f", W)])) "f" = Some W).
-  { intros W. unfold lookup_var. change (bindable "f") with true. cbv iota. cbn [lookup]. rewrite Hn1f.
+               (bind (names (s_results s)) (zeros (names (s_results s))) [(fn, W)])) fn = Some W).
+  { intros W. unfold lookup_var. rewrite Hbf. cbn [lookup]. rewrite Hn1f.
     rewrite lookup_bind_skip by exact Hfps. rewrite lookup_bind_skip by exact Hf.
     cbn [lookup]. rewrite String.eqb_refl. reflexivity. }
   rewrite Ef.
@@ -957,59 +1269,14 @@ Proof.
   rewrite apply_clo_lam by (try reflexivity; exact Hok_inner).
   cbn [bind]. rewrite Hb1.
   rewrite lookup_all_cons_skip by exact Hn1ps.
-  rewrite lookup_all_bind; [|apply forall_good_bindable; assumption| |exact Hlen'].
+  rewrite lookup_all_bind; [|assumption| |exact Hlen'].
   2:{ cbn [app] in Hnd. apply NoDup_cons_iff in Hnd as [_ Hnd]. apply NoDup_app_l in Hnd. exact Hnd. }
   rewrite Hpf.
   change (S (S (3 + (5 + k)))) with (S (3 + (6 + k))).
-  apply (curry_inner (6 + k) s n1 t1 ps a1 rest [] Hp); [|exact Hlr].
-  exact Hgs.
+  apply (curry_inner hygienic fn (6 + k) s n1 t1 ps a1 rest [] eq_refl Hp); [|exact Hlr].
+  rewrite Hp. exact Hgs.
 Qed.
 End RoundTrip.
-
-(* ====================================================================================== *)
-(* the guard, from the signature as the user wrote it                                       *)
-
-Lemma not_blank_bindable n : is_blank fixed n = false -> bindable n = true.
-Proof.
-  unfold is_blank, bindable. cbn. intros H. apply orb_false_iff in H as [H1 H2].
-  rewrite H1, H2. reflexivity.
-Qed.
-
-Lemma param_name_not_f i : String.append "param_" (itoa i) <> "f".
-Proof. cbn. discriminate. Qed.
-
-Lemma rename_from_not_f pre i ps :
-  (forall j, String.append pre (itoa j) <> "f") ->
-  ~ In "f" (names ps) -> ~ In "f" (names (rename_from fixed pre i ps)).
-Proof.
-  intros Hpre Hf Hi. apply rename_from_names_in in Hi as [(Hi & _)|(j & _ & Hx)]; [tauto|].
-  symmetry in Hx. exact (Hpre j Hx).
-Qed.
-
-(* Every signature Go accepts (the names that can be referred to are pairwise distinct), whose
-   results are unnamed or blank and in which nothing is called f, is inside the guard: after the
-   fix no shape of *parameter naming* other than the name f itself is excluded. *)
-Theorem guard_from_source (ps : list (name * ty)) (rs : list name) :
-  NoDup (filter (nonblank fixed) (names ps)) ->
-  ~ In "f" (names ps) ->
-  names_form rs = true -> filter bindable rs = [] ->
-  guardb (names (rename_blank fixed "param_" ps)) rs = true.
-Proof.
-  intros Hnd Hf Hform Hrs.
-  destruct (rename_blank_spec fixed "p" "aram_" ps) as (_ & _ & Hnb & Hno & _); [discriminate|].
-  change (String "p" "aram_") with "param_" in *. cbv zeta in *.
-  assert (Hf' : ~ In "f" (names (rename_blank fixed "param_" ps))).
-  { unfold rename_blank. destruct (has_blank fixed ps); [|exact Hf].
-    apply rename_from_not_f; [apply param_name_not_f|exact Hf]. }
-  unfold guardb. rewrite Hform, Hrs, app_nil_r. rewrite !andb_true_iff. repeat split.
-  - apply forallb_forall. intros x Hx. unfold good_name. rewrite Forall_forall in Hnb.
-    rewrite (not_blank_bindable x (Hnb x Hx)). cbn.
-    apply negb_true_iff, String.eqb_neq. intros ->. exact (Hf' Hx).
-  - apply nodupb_NoDup, Hno, Hnd.
-  - apply negb_true_iff, memb_false. intros Hi.
-    assert (Hb : bindable "f" = true) by reflexivity.
-    pose proof (in_names_results "f" rs Hb Hi) as Hin. rewrite Hrs in Hin. exact Hin.
-Qed.
 
 (* ====================================================================================== *)
 (* witnesses                                                                                *)
@@ -1020,43 +1287,49 @@ Definition v1 : val := VBase 1.
 Definition v2 : val := VBase 2.
 Definition v3 : val := VBase 3.
 
-(* --- the guards are satisfiable on non-trivial inputs (blank + a name that already carries the
-       prefix + named results; unnamed parameters; both levels of uncurry blank) --- *)
-Definition ex_sig : sig := mkSig [("_", Ti); ("param_0", Ts); ("c", Ti)] [("r", Ti); ("e", Ts)] false.
+(* --- the hypotheses of the theorems are satisfiable on non-trivial inputs: a blank parameter, a
+       parameter called f, one called f_ that already carries the generator's prefix, a result
+       with the name the renaming would make up and a result called f__; unnamed parameters; both
+       levels of uncurry blank, the outer parameter named like an inner one's made-up name --- *)
+Definition ex_sig : sig :=
+  mkSig [("_", Ti); ("f", Ts); ("param_f_", Ti)] [("param_0", Ti); ("f__", Ts)] false.
 Definition ex_unnamed : sig := mkSig [("", Ti); ("", Ts)] [] false.
-Definition ex_csig : csig := mkCsig [("_", Ti)] "" [("_", Ts); ("innerParam_0", Ti)] [("", Ti)] false.
+Definition ex_csig : csig := mkCsig [("innerParam_0", Ti)] "f" [("_", Ts); ("f", Ti)] [("", Ti)] false.
 
-Example ex_guard_flat :
-  guardb (names (rename_blank fixed "param_" (s_params ex_sig))) (names (s_results ex_sig)) = true
-  /\ names (rename_blank fixed "param_" (s_params ex_sig)) = ["param_0"; "param_1"; "c"].
-Proof. split; reflexivity. Qed.
+Example ex_src_flat :
+  src_ok (names (s_params ex_sig)) (names (s_results ex_sig)) = true
+  /\ names (s_params (rename_sig hygienic "param_" ex_sig)) = ["param_0_"; "f"; "param_2"]
+  /\ sig_fname hygienic (rename_sig hygienic "param_" ex_sig) = "f_".
+Proof. repeat split; reflexivity. Qed.
 
-Example ex_guard_unnamed :
-  guardb (names (rename_blank fixed "param_" (s_params ex_unnamed))) (names (s_results ex_unnamed)) = true.
+Example ex_src_unnamed :
+  src_ok (names (s_params ex_unnamed)) (names (s_results ex_unnamed)) = true.
 Proof. reflexivity. Qed.
 
-Example ex_guard_uncurry :
-  guardb (names (rename_blank fixed "param_" (c_outer ex_csig)) ++
-          names (rename_blank fixed "innerParam_" (c_inner ex_csig))) (names (c_results ex_csig)) = true.
-Proof. reflexivity. Qed.
+Example ex_src_uncurry :
+  nodupb (filter bindable (names (c_outer ex_csig))) = true
+  /\ src_ok (names (c_inner ex_csig)) (names (c_results ex_csig)) = true
+  /\ option_map (fun c => (names (c_outer c), names (c_inner c))) (add_uncurry hygienic ex_csig)
+     = Some (["param_0"], ["innerParam_0"; "f"]).
+Proof. repeat split; reflexivity. Qed.
 
-Example ex_curry : run_curry res0 fixed FUEL ex_sig (prim_flat ex_sig) [v1; v2; v3]
+Example ex_curry : run_curry res0 hygienic FUEL ex_sig (prim_flat ex_sig) [v1; v2; v3]
                    = ROk [VBase 0; VBase 1] [(0, [v1; v2; v3])].
 Proof. exact (plumb_correct_curry res0 ex_sig v1 [v2; v3] 0 eq_refl eq_refl (le_S _ _ (le_n 2)) eq_refl). Qed.
 
-Example ex_flip : run_flip res0 fixed FUEL ex_sig (prim_flat ex_sig) [v1; v2; v3]
+Example ex_flip : run_flip res0 hygienic FUEL ex_sig (prim_flat ex_sig) [v1; v2; v3]
                   = ROk [VBase 0; VBase 1] [(0, [v2; v1; v3])].
 Proof. exact (plumb_correct_flip res0 ex_sig v1 v2 [v3] 0 eq_refl eq_refl eq_refl). Qed.
 
-Example ex_apply : run_apply res0 fixed FUEL ex_unnamed (prim_flat ex_unnamed) [v1; v2]
+Example ex_apply : run_apply res0 hygienic FUEL ex_unnamed (prim_flat ex_unnamed) [v1; v2]
                    = ROk [] [(0, [v1; v2])].
 Proof. exact (plumb_correct_apply res0 ex_unnamed [v1] v2 0 eq_refl eq_refl eq_refl). Qed.
 
-Example ex_uncurry : run_uncurry res0 fixed FUEL ex_csig (prim_curried ex_csig) [v1; v2; v3]
+Example ex_uncurry : run_uncurry res0 hygienic FUEL ex_csig (prim_curried ex_csig) [v1; v2; v3]
                      = ROk [VBase 0] [(0, [v1]); (1, [v2; v3])].
 Proof. exact (plumb_correct_uncurry res0 ex_csig [v1] [v2; v3] 0 eq_refl eq_refl eq_refl eq_refl eq_refl eq_refl). Qed.
 
-Example ex_roundtrip : run_roundtrip res0 fixed FUEL ex_sig (prim_flat ex_sig) [v1; v2; v3]
+Example ex_roundtrip : run_roundtrip res0 hygienic FUEL ex_sig (prim_flat ex_sig) [v1; v2; v3]
                        = ROk [VBase 0; VBase 1] [(0, [v1; v2; v3])].
 Proof. exact (uncurry_curry_id res0 ex_sig v1 [v2; v3] 0 eq_refl eq_refl (le_S _ _ (le_n 2)) eq_refl). Qed.
 
@@ -1087,7 +1360,9 @@ Theorem plumb_void_refuted :
   /\ run_curry res0 fixed FUEL w_void (prim_flat w_void) [v1; v2] = ROk [] [(0, [v1; v2])].
 Proof. vm_compute. repeat split; reflexivity. Qed.
 
-(* --- open: a parameter (or a named result) called f shadows the function --- *)
+(* --- the old naming ([fixed], before repo-patches/C15-fix-1-param-named-f.patch): a parameter
+       (or a named result) called f shadows the wrapper's own f; the current tree calls its own
+       parameter f_ there and the same inputs are plumbed correctly --- *)
 Definition w_f_first : sig := mkSig [("f", Ti); ("b", Ts)] [("", Ti)] false.
 Definition w_f_last : sig := mkSig [("a", Ti); ("f", Ts)] [("", Ti)] false.
 Definition w_f_result : sig := mkSig [("a", Ti); ("b", Ts)] [("r", Ti); ("f", Ts)] false.
@@ -1099,17 +1374,55 @@ Theorem plumb_param_f_refuted :
   /\ run_apply res0 fixed FUEL w_f_first (prim_flat w_f_first) [v1; v2] = RIll
   /\ run_apply res0 fixed FUEL w_f_last (prim_flat w_f_last) [v1; v2] = RIll
   /\ run_uncurry res0 fixed FUEL w_f_inner (prim_curried w_f_inner) [v1; v2] = RIll
-  /\ run_curry res0 fixed FUEL w_f_result (prim_flat w_f_result) [v1; v2] = RIll.
+  /\ run_curry res0 fixed FUEL w_f_result (prim_flat w_f_result) [v1; v2] = RIll
+  /\ (* repaired: *)
+     run_curry res0 hygienic FUEL w_f_first (prim_flat w_f_first) [v1; v2] = ROk [VBase 0] [(0, [v1; v2])]
+  /\ run_flip res0 hygienic FUEL w_f_last (prim_flat w_f_last) [v1; v2] = ROk [VBase 0] [(0, [v2; v1])]
+  /\ run_apply res0 hygienic FUEL w_f_last (prim_flat w_f_last) [v1; v2] = ROk [VBase 0] [(0, [v1; v2])]
+  /\ run_uncurry res0 hygienic FUEL w_f_inner (prim_curried w_f_inner) [v1; v2] = ROk [VBase 0] [(0, [v1]); (1, [v2])]
+  /\ run_curry res0 hygienic FUEL w_f_result (prim_flat w_f_result) [v1; v2] = ROk [VBase 0; VBase 1] [(0, [v1; v2])]
+  /\ sig_fname hygienic w_f_first = "f_".
 Proof. vm_compute. repeat split; reflexivity. Qed.
 
-(* --- open: uncurry concatenates the two parameter lists without looking for a clash, also
-       between a user's name and a name the generator made up itself --- *)
+(* --- the old naming ([fixed], before repo-patches/C15-fix-2-uncurry-duplicate-names.patch):
+       uncurry concatenates the two parameter lists without looking for a clash, also between a
+       user's name and a name the generator made up itself; the current tree renames the outer
+       parameter --- *)
 Definition w_dup_a : csig := mkCsig [("a", Ti)] "" [("a", Ti)] [("", Ti)] false.
 Definition w_dup_inner : csig := mkCsig [("innerParam_0", Ti)] "" [("_", Ti)] [("", Ti)] false.
 Definition w_dup_param : csig := mkCsig [("_", Ti)] "" [("param_0", Ti)] [("", Ti)] false.
 
+Definition outer_inner (c : option csig) : option (list name * list name) :=
+  option_map (fun c => (names (c_outer c), names (c_inner c))) c.
+
 Theorem plumb_uncurry_dup_refuted :
   run_uncurry res0 fixed FUEL w_dup_a (prim_curried w_dup_a) [v1; v2] = RIll
   /\ run_uncurry res0 fixed FUEL w_dup_inner (prim_curried w_dup_inner) [v1; v2] = RIll
-  /\ run_uncurry res0 fixed FUEL w_dup_param (prim_curried w_dup_param) [v1; v2] = RIll.
+  /\ run_uncurry res0 fixed FUEL w_dup_param (prim_curried w_dup_param) [v1; v2] = RIll
+  /\ (* repaired: *)
+     run_uncurry res0 hygienic FUEL w_dup_a (prim_curried w_dup_a) [v1; v2] = ROk [VBase 0] [(0, [v1]); (1, [v2])]
+  /\ run_uncurry res0 hygienic FUEL w_dup_inner (prim_curried w_dup_inner) [v1; v2] = ROk [VBase 0] [(0, [v1]); (1, [v2])]
+  /\ run_uncurry res0 hygienic FUEL w_dup_param (prim_curried w_dup_param) [v1; v2] = ROk [VBase 0] [(0, [v1]); (1, [v2])]
+  /\ outer_inner (add_uncurry hygienic w_dup_a) = Some (["param_0"], ["a"])
+  /\ outer_inner (add_uncurry hygienic w_dup_inner) = Some (["param_0"], ["innerParam_0"])
+  /\ outer_inner (add_uncurry hygienic w_dup_param) = Some (["param_0_"], ["param_0"]).
+Proof. vm_compute. repeat split; reflexivity. Qed.
+
+(* --- the old naming ([fixed]), same patch: a made-up parameter name is the name of a result, and
+       the outer parameter of uncurry is the name of an inner result or of the returned function --- *)
+Definition w_res_prefix : sig := mkSig [("_", Ti); ("b", Ts)] [("param_0", Ti)] false.
+Definition w_outer_res : csig := mkCsig [("a", Ti)] "" [("b", Ti)] [("a", Ti)] false.
+Definition w_rname : csig := mkCsig [("_", Ti)] "param_0" [("b", Ti)] [("", Ti)] false.
+
+Theorem plumb_result_clash_refuted :
+  run_curry res0 fixed FUEL w_res_prefix (prim_flat w_res_prefix) [v1; v2] = RIll
+  /\ run_flip res0 fixed FUEL w_res_prefix (prim_flat w_res_prefix) [v1; v2] = RIll
+  /\ run_apply res0 fixed FUEL w_res_prefix (prim_flat w_res_prefix) [v1; v2] = RIll
+  /\ run_uncurry res0 fixed FUEL w_outer_res (prim_curried w_outer_res) [v1; v2] = RIll
+  /\ run_uncurry res0 fixed FUEL w_rname (prim_curried w_rname) [v1; v2] = RIll
+  /\ (* repaired: *)
+     run_curry res0 hygienic FUEL w_res_prefix (prim_flat w_res_prefix) [v1; v2] = ROk [VBase 0] [(0, [v1; v2])]
+  /\ run_uncurry res0 hygienic FUEL w_outer_res (prim_curried w_outer_res) [v1; v2] = ROk [VBase 0] [(0, [v1]); (1, [v2])]
+  /\ run_uncurry res0 hygienic FUEL w_rname (prim_curried w_rname) [v1; v2] = ROk [VBase 0] [(0, [v1]); (1, [v2])]
+  /\ names (s_params (rename_sig hygienic "param_" w_res_prefix)) = ["param_0_"; "b"].
 Proof. vm_compute. repeat split; reflexivity. Qed.
